@@ -71,11 +71,14 @@ def join(
     key_paths = []
     for pp in paths_in:
         with new_dataset(pp) as dsa:
-            # sorting key
-            key = "_".join([dsa.config["experiment"]["date"],
-                            dsa.config["experiment"]["time"],
-                            str(dsa.config["experiment"]["run index"])
-                            ])
+            # sorting key (chronological: date, time, fraction of a second
+            # if given as "HH:MM:SS.SS", and run index as a number)
+            etime = dsa.config["experiment"]["time"]
+            key = (dsa.config["experiment"]["date"],
+                   etime[:8],
+                   float("0" + etime[8:]) if len(etime) > 8 else 0.0,
+                   int(dsa.config["experiment"]["run index"]),
+                   )
             key_paths.append((key, pp))
     sorted_paths = [p[1] for p in sorted(key_paths, key=lambda x: x[0])]
 
